@@ -636,6 +636,7 @@ func (f *frame) invoke(c *ssa.CallCommon, pos token.Pos) []Val {
 		args = append(args, f.val(a))
 	}
 	f.oblige("safety", "nil-iface:"+f.keyOf(c.Value, pos), nil, not(eq(sx("i-tag", recv.t), "0")), pos)
+	f.atCallAssertionsIface(c.Method.Name(), c, args, pos)
 	key := ifaceKey(c.Value.Type(), c.Method)
 	ct := eng.cs.Contracts["iface::"+key]
 	sig := c.Method.Type().(*types.Signature)
@@ -769,6 +770,11 @@ func (f *frame) builtin(b *ssa.Builtin, c *ssa.CallCommon, pos token.Pos, res ss
 		mt := c.Args[0].Type().Underlying().(*types.Map)
 		f.mapDelete(f.term(c.Args[0]), mt, f.term(c.Args[1]))
 		return Val{}
+	case "ssa:wrapnilchk":
+		// promoted/value-receiver wrapper called through a pointer: panics when the pointer is nil
+		v := f.val(c.Args[0])
+		f.oblige("safety", "nil:"+f.keyOf(c.Args[0], pos), nil, not(eq(v.t, "0")), pos)
+		return v
 	case "panic":
 		f.oblige("safety", "panic", nil, "false", pos)
 		return Val{}
@@ -952,6 +958,30 @@ func (f *frame) atCallAssertions(callee string, c *ssa.CallCommon, args []Val, p
 	for i, a := range args {
 		if a.t != "" {
 			env.vars[fmt.Sprintf("arg%d", i)] = specVal{term: a.t, typ: c.Args[i].Type()}
+		}
+	}
+	f.atCallSeen[callee]++
+	for _, cl := range f.contract.AtCalls[callee] {
+		f.oblige("atcall", callee+"."+cl.Label, cl.Props, env.trBool(cl.Expr), pos)
+	}
+}
+
+// atCallAssertionsIface: atcall clauses for interface method calls (arg0 is the receiver value).
+func (f *frame) atCallAssertionsIface(callee string, c *ssa.CallCommon, args []Val, pos token.Pos) {
+	if f.contract == nil || !f.top || len(f.contract.AtCalls[callee]) == 0 {
+		return
+	}
+	env := f.specEnv(f.st)
+	env.atBlock = f.cur
+	env.where = "atcall " + callee
+	for i, a := range args {
+		if a.t == "" {
+			continue
+		}
+		if i == 0 {
+			env.vars["arg0"] = specVal{term: a.t, typ: c.Value.Type()}
+		} else {
+			env.vars[fmt.Sprintf("arg%d", i)] = specVal{term: a.t, typ: c.Args[i-1].Type()}
 		}
 	}
 	f.atCallSeen[callee]++
